@@ -656,7 +656,7 @@ def classify_c05(cs, visible):
 
 
 # ---------------------------------------------------------------- generation of the check's case list
-MAIN_REGIMES = ["plain", "dup", "reorder", "tiecut", "udp-only", "udp-collide", "udp-reuse", "tcp-only", "tcp-reuse-late", "mixed", "tiecut", "reorder"]
+MAIN_REGIMES = ["plain", "dup", "reorder", "tiecut", "udp-only", "udp-collide", "udp-reuse", "tcp-only", "tcp-reuse-late", "mixed", "tiecut", "udp-bucket", "reorder", "udp-bucket"]
 
 
 def gen_reuse(rng, name, early):
@@ -723,7 +723,99 @@ def cut_tiecut(rng, cs):
     return cut_files(rng, cs, "contig", cuts=cuts)
 
 
+def gen_udp_bucket(rng, name):
+    """k >= 3 UDP flows in ONE bucket of udpreassembly (hash = FastHash(src addr) ^ FastHash(dst addr) ^ sport ^ dport:
+    same host pair in either order, same sport^dport).  Some flows go idle (at the same or at different times) for more
+    than the timeout while others stay alive across that flush; idle 4-tuples may come back later as new flows (either
+    side first).  Exercises the in-place compaction of the bucket in FlushCloseOlderThan."""
+    cs = CaptureSet(name)
+    cs.regime = "udp-bucket"
+    fam = rng.choice([4, 4, 6])
+    a, b = host(rng, fam), host(rng, fam)
+    while a == b:
+        b = host(rng, fam)
+    x = rng.choice([1, 1, 3, 256, 257, 0x1234])
+    k = rng.choice([3, 3, 4, 5, 6])
+    ports, tuples = set(), []
+    while len(tuples) < k:
+        ap = rng.randrange(1024, 60000)
+        bp = ap ^ x
+        if ap in ports or bp in ports or bp < 1 or bp > 65535:
+            continue
+        ports |= {ap, bp}
+        tuples.append(((a, ap), (b, bp)) if rng.random() < 0.5 else ((b, ap), (a, bp)))
+    S = 1000000
+    t0 = rng.randrange(0, 5 * S)
+    t_end = t0 + rng.randrange(7 * 60, 25 * 60) * S
+    nlive = rng.randrange(1, k - 1)                      # at least two flows die
+    order = list(range(k))
+    rng.shuffle(order)
+    live = set(order[:nlive])
+    if rng.random() < 0.7:
+        # the flows that die are created first (they precede the live ones in the bucket) ...
+        order = [i for i in order if i not in live] + [i for i in order if i in live]
+    common_die = t0 + rng.randrange(10, 120) * S
+    together = rng.random() < 0.7                          # ... and time out at the same flush
+    convs = []
+
+    def mk(client, server, times):
+        c = Conv(len(convs), "UDP", client, server, [])
+        first = True
+        for ts in times:
+            d = "c" if first else rng.choice(["c", "s"])
+            first = False
+            data = rand_payload(rng, rng.choice([0, 1, 2, 5, 40]))
+            c.msgs.append((d, data))
+            pkt(c, d, ts, data=data)
+        convs.append(c)
+        return c
+
+    starts = sorted(rng.randrange(t0, t0 + 8 * S) for _ in range(k))   # creation order = bucket order
+    for idx, i in enumerate(order):
+        cl, sv = tuples[i]
+        ts, times = starts[idx], []
+        if i in live:
+            while ts < t_end:
+                times.append(ts)
+                ts += rng.choice([1, 5, 60, 200, 299, 300]) * S
+            mk(cl, sv, times)
+        else:
+            die = common_die if (together or rng.random() < 0.4) else t0 + rng.randrange(10, 400) * S
+            while ts <= die:
+                times.append(ts)
+                ts += rng.choice([1, 3, 20, 100]) * S
+            times = times or [starts[idx]]
+            mk(cl, sv, times)
+            if rng.random() < 0.5:                         # the 4-tuple comes back after the timeout
+                back = times[-1] + TIMEOUT_US + rng.choice([1, S, 90 * S])
+                if back < t_end + 5 * 60 * S:
+                    c2, s2 = (cl, sv) if rng.random() < 0.5 else (sv, cl)
+                    step = rng.choice([1, 10, 100]) * S
+                    mk(c2, s2, [back + j * step for j in range(rng.randrange(1, 4))])
+    for c in gen_convs(rng, "mixed", rng.choice([0, 0, 1, 2])):     # bystanders in other buckets
+        c.cid = len(convs)
+        if c.proto == "TCP":
+            render_tcp(rng, c, rng.randrange(t0, t_end), 1)
+        else:
+            render_udp(rng, c, rng.randrange(t0, t_end))
+        for p_ in c.pkts:
+            p_["cid"] = c.cid
+        if not any(o.proto == c.proto and {o.client, o.server} == {c.client, c.server} for o in convs):
+            convs.append(c)
+    for i, c in enumerate(convs):
+        c.cid = i
+        for p_ in c.pkts:
+            p_["cid"] = i
+    cs.convs = convs
+    allp = [p_ for c in convs for p_ in c.pkts]
+    allp.sort(key=lambda p_: (p_["ts"], p_["cid"], p_["seqno"]))
+    cs.packets = allp
+    return cs
+
+
 def gen_set(rng, name, regime):
+    if regime == "udp-bucket":
+        return gen_udp_bucket(rng, name)
     if regime == "tcp-reuse-early":
         return gen_reuse(rng, name, True)
     if regime == "tcp-reuse-late":
